@@ -238,8 +238,25 @@ fn is_mutating(e: &shim::Ev) -> bool {
 pub fn run_case(name: &str, opname: &str, front: &str, rep: &mut Report) -> Vec<(String, String)> {
     run::reset_env();
     let sc = Scratch::new();
+    // "plain@" / "plain@.": the same world, the cache directory named by the empty path / by "." from inside it
+    let spelled: Option<&str> = if front.contains("@.") {
+        Some(".")
+    } else if front.contains('@') {
+        Some("")
+    } else {
+        None
+    };
+    let front_owned = front.replace("@.", "").replace('@', "");
+    let front = front_owned.as_str();
     let (cfg, dirs, outer) = build_world(&sc, front);
-    let cache = ops::build(&cfg, &dirs, None);
+    let cache = match spelled {
+        Some(sp) => {
+            std::env::set_current_dir(&dirs.write).unwrap();
+            let named = ops::Dirs { write: PathBuf::from(sp), reads: dirs.reads.clone(), app_tmp: dirs.app_tmp.clone() };
+            ops::build(&cfg, &named, None)
+        }
+        None => ops::build(&cfg, &dirs, None),
+    };
     let op = make_op(opname, K::new(name, 1, 2));
     let before = world::snapshot(&sc.root);
     let maintain = front.ends_with("+maint");
@@ -260,6 +277,9 @@ pub fn run_case(name: &str, opname: &str, front: &str, rep: &mut Report) -> Vec<
         ops::exec(&cache, &dirs, &op, &Default::default())
     });
     shim::set_controller(None);
+    if spelled.is_some() {
+        std::env::set_current_dir("/").unwrap();
+    }
     LAST_TRACE.with(|t| *t.borrow_mut() = trace.clone());
     rep.transitions += trace.len() as u64;
     let after = world::snapshot(&sc.root);
@@ -382,7 +402,9 @@ pub fn run_case(name: &str, opname: &str, front: &str, rep: &mut Report) -> Vec<
             .into_iter()
             .flatten()
         {
-            let norm = lexical_normalise(Path::new(p));
+            // (a cache named by a relative path issues relative paths: they are relative to the cache directory here)
+            let abs = if Path::new(p).is_absolute() { PathBuf::from(p) } else { dirs.write.join(p) };
+            let norm = lexical_normalise(&abs);
             let lookup_touch = e.kind == Kind::Utimens && !e.sets_mtime;
             let ok = if lookup_touch {
                 roots.iter().any(|r| allowed_mutation(&norm, std::slice::from_ref(r), &dirs.app_tmp, name))
@@ -517,7 +539,7 @@ pub fn run(tier: Tier, shard: Shard, rep: &mut Report) {
          direct-child entry, plus a monitor on every mutating call's path; every name of length <= 2 (thorough 3) and the edge names \
          again in a world where maintenance is due (over capacity, stale debris in .kismet_temp, trigger firing): a reserved name (empty, or starting with '.', '/', '\\') is \
          rejected with InvalidInput and leaves that world unchanged too, and whatever the name, application dot-files (one of them not \
-         valid UTF-8) are neither deleted nor re-stamped by the maintenance. Each publication step of writes under four accepted names refused in every plausible way \
+         valid UTF-8) are neither deleted nor re-stamped by the maintenance. Every name of length <= 2 again on a plain cache named by the empty path and by a single dot (working directory = the cache directory): same oracle, entries land directly in that directory. Each publication step of writes under four accepted names refused in every plausible way \
          (EXDEV, EMLINK, ...): every mutating call still lands on the key's own entry or in the cache's own structure. Plus, under concurrency (all schedules with <= 2 preemptions of a maintaining writer racing with a deleter or another \
          writer, sentinel files named like the entries one directory up): every mutating call lands inside the cache's own \
          directories. Non-trivial = accepted-by-first-byte name containing a separator, NUL, '..' or of extreme length.",
@@ -554,6 +576,19 @@ pub fn run(tier: Tier, shard: Shard, rep: &mut Report) {
                 }
                 rep.count("maintenance_due_cases", 1);
                 record(name, op, &format!("{}+maint", front), rep);
+            }
+        }
+    }
+    // the cache directory named by the empty path, and by ".", from inside it: entries still land directly in it
+    for name in &names(2) {
+        for op in OPS.iter() {
+            for front in ["plain@", "plain@."] {
+                no += 1;
+                if !shard.mine(no) {
+                    continue;
+                }
+                rep.count("relative_directory_cases", 1);
+                record(name, op, front, rep);
             }
         }
     }
